@@ -1,6 +1,7 @@
 //! vharness <prop> gen <seed> <tier> <outfile> [corpus files...]   — generate cases, run the implementation
 //! vharness <prop> replay <file>                                   — re-run the cases of a file, print lines
 mod common;
+mod c04;
 mod c10;
 mod jws;
 mod jws_storage;
@@ -24,6 +25,7 @@ struct Prop {
 fn props() -> Vec<Prop> {
   vec![
     Prop { id: "C01", exec: jws::exec, classify: no_class, gen: jws::gen_c01 },
+    Prop { id: "C04", exec: c04::exec, classify: no_class, gen: c04::gen },
     Prop { id: "C08", exec: jws::exec, classify: no_class, gen: jws::gen_c08 },
     Prop { id: "C10", exec: c10::exec, classify: c10::classify, gen: c10::gen },
     Prop { id: "C11", exec: c11::exec, classify: no_class, gen: c11::gen },
